@@ -282,4 +282,23 @@ def goEager (scan : Scanner α γ) (buf : List α) : List (List α) → List γ
       | none => goEager scan buf' cs
       | some m => ms'.map (·.val) ++ goEager scan (buf'.drop m.e) cs
 
+/-- `_find_iter` with the rule "a pending match that was not extended by the text just read can no
+longer be extended: release it" in front of the usual rule (the last match is yielded, and the
+buffer trimmed after it, as soon as it ends at or before the old end of the buffer) -/
+def goUnextended (scan : Scanner α γ) (buf : List α) : List (List α) → List γ
+  | [] => (scan buf).map (·.val)
+  | c :: cs =>
+    let buf' := buf ++ c
+    let ms := scan buf'
+    if c.isEmpty then ms.map (·.val)
+    else
+      match ms.getLast? with
+      | none => goUnextended scan buf' cs
+      | some l =>
+        if l.e ≤ buf'.length - c.length then ms.map (·.val) ++ goUnextended scan (buf'.drop l.e) cs
+        else
+          match ms.dropLast.getLast? with
+          | some m => ms.dropLast.map (·.val) ++ goUnextended scan (buf'.drop m.e) cs
+          | none => goUnextended scan buf' cs
+
 end Parse
